@@ -210,7 +210,37 @@ def run_engine(engine, driver, cases_path, workdir, tag=""):
         raise RuntimeError("harness failed: " + o1.decode()[-2000:])
     if p2.returncode != 0 or not os.path.exists(model):
         raise RuntimeError("model driver failed: " + o2.decode()[-2000:])
+    _retry_harness_failures(engine, cases_path, impl, workdir, tag)
     return impl, model
+
+
+def _retry_harness_failures(engine, cases_path, impl, workdir, tag):
+    """a case whose engine task died (socket set-up timing under load: the line HARNESS-FAILURE) is run again on its
+    own, with few threads; what the property says is decided on the repeated run"""
+    from casefmt import read_obs, write_cases
+    obs = read_obs(impl)
+    failed = [n for n, l in obs.items() if l and l[0] == "HARNESS-FAILURE"]
+    if not failed:
+        return
+    cases = {}
+    cur = None
+    for line in open(cases_path).read().split("\n"):
+        if line.startswith("case "): cur = line[5:]; cases[cur] = []
+        elif line == "end": cur = None
+        elif cur is not None: cases[cur].append(line)
+    for attempt in range(2):
+        if not failed: break
+        sub = os.path.join(workdir, f"retry{tag}.txt"); out = os.path.join(workdir, f"retry{tag}.out")
+        write_cases(sub, [(n, cases[n]) for n in failed])
+        subprocess.run([WBH, engine, sub, out], env=dict(ENV, WBH_THREADS="2"), stdout=subprocess.PIPE, stderr=subprocess.STDOUT, timeout=3000)
+        if os.path.exists(out):
+            again = read_obs(out)
+            for n in list(failed):
+                if again.get(n) and again[n][0] != "HARNESS-FAILURE":
+                    obs[n] = again[n]; failed.remove(n)
+    with open(impl, "w") as f:
+        for n, l in obs.items():
+            f.write(f"case {n}\n" + "".join(x + "\n" for x in l) + "end\n")
 
 
 def load_known(prop_id):
